@@ -2,6 +2,7 @@
 # usage: tools/try_seeded.sh <property id> <patch.diff> [more property ids...]
 # Applies a seeded change to a scratch copy of /repo (never to /repo itself) and runs the property's quick check
 # against that copy (VERIF_REPO). Prints the VIOLATION lines and exit status.
+# Every tried tree leaves its own build of saito-core in .cache/target-alt (about 0.6 GB each): remove that directory after a batch.
 set -u
 PID=$1; PATCH=$(readlink -f "$2"); shift 2
 S=/tmp/seedtry/$PID.$$
